@@ -7,9 +7,14 @@ package main
 
 import (
 	"bytes"
+	"encoding/json"
 	"flag"
 	"fmt"
 	"strings"
+	"verif/lib/explore"
+	"verif/lib/loopworld"
+	"verif/lib/par"
+	"verif/lib/xrun"
 
 	"github.com/PowerDNS/lightningstream/lmdbenv/header"
 	"github.com/PowerDNS/lightningstream/lmdbenv/strategy"
@@ -21,10 +26,29 @@ import (
 	"verif/lib/world"
 )
 
+// part "sync-loop": the real Syncer.Sync loop with application commits at every hook and straddling
+// application transactions; only the header oracle is judged here.
+func runLoop(param json.RawMessage, ctx *explore.Ctx, viols *[]xrun.Viol) string {
+	var cfg loopworld.Cfg
+	_ = json.Unmarshal(param, &cfg)
+	res := loopworld.Run(cfg, ctx)
+	for _, v := range res.Viols {
+		if loopworld.Judged(v.Sig, "c14") {
+			*viols = append(*viols, xrun.Viol{Sig: v.Sig, Msg: v.Msg})
+		}
+	}
+	return fmt.Sprintf("%s/stores=%d/loads=%d", res.Outcome, res.Stores, res.Loads)
+}
+
 func main() {
 	flag.Parse()
+	par.ServeIfWorker(map[string]par.Handler{"loop": xrun.Handler(runLoop)})
 	if v, ok := ev.ReplayRequested(); ok {
-		fmt.Printf("  this check enumerates inputs; the replay artefact names the failing input directly: %v\n", v.Replay)
+		if strings.HasPrefix(v.Part, "sync-loop") {
+			xrun.Replay(v, runLoop)
+			return
+		}
+		fmt.Printf("  this part enumerates inputs; the replay artefact names the failing input directly: %v\n", v.Replay)
 		return
 	}
 	r := ev.Start("C14")
@@ -295,6 +319,37 @@ func main() {
 							continue
 						}
 						if rerr != nil {
+							// a stored value that is not a well-formed header must make the merge fail, whatever the
+							// incoming version is (older, same or newer than the 8 bytes in the timestamp position)
+							if l > 0 {
+								var first uint64
+								for i := 0; i < 8 && i < l; i++ {
+									first = first<<8 | uint64(b[i])
+								}
+								for _, its := range []uint64{1, first - 1, first, first + 1, 1<<64 - 1} {
+									if its == 0 {
+										continue
+									}
+									for _, clean := range []bool{false, true} {
+										d := snapshot.NewDBISize(64)
+										d.Append(snapshot.KV{Key: []byte("k"), Value: []byte("v"), TimestampNano: its})
+										it, err := syncer.NewNativeIterator(3, 1, d, 0, 7, 0)
+										must(err)
+										_, err = it.Next()
+										must(err)
+										pr.Transitions++
+										var out []byte
+										if clean {
+											out, err = it.Clean(b)
+										} else {
+											out, err = it.Merge(b)
+										}
+										if err == nil {
+											r.Violate(pr.Name, "malformed-stored-value-not-rejected-by-merge", fmt.Sprintf("stored value %x (len=%d ver=%d next=%d: %v) with incoming ts=%d (clean=%v): no error, result %x", b, l, ver, next, rerr, its, clean, out), rep)
+										}
+									}
+								}
+							}
 							continue
 						}
 						if !bytes.Equal(rapp, app) || !bytes.Equal(rapp, sapp) {
@@ -324,7 +379,7 @@ func main() {
 	}
 	pr.States = int64(len(rclasses))
 	pr.Distinct = int64(len(rclasses))
-	pr.Bound = fmt.Sprintf("all lengths 0..%d x version{0,1,255} x extension count{0,1,2,3,4,255,256,65535} x flags{0,1,2,255} x 2 fill patterns", maxLen)
+	pr.Bound = fmt.Sprintf("all lengths 0..%d x version{0,1,255} x extension count{0,1,2,3,4,255,256,65535} x flags{0,1,2,255} x 2 fill patterns; every malformed value also as the stored value of NativeIterator.Merge/Clean with incoming timestamps around its first 8 bytes", maxLen)
 	pr.Samples = []any{"len=31 ver=0 next=1 -> too short", "len=40 ver=0 next=2 -> value = last 0 bytes"}
 	r.AddPart(pr)
 
@@ -356,6 +411,12 @@ func main() {
 	pb.Samples = []any{"Header{ts=1,flags=1,NumExtra=1,Extra=9 bytes}"}
 	r.AddPart(pb)
 
+	// ---- the transaction id in the header, under concurrency with the application ----
+	for _, native := range []bool{true, false} {
+		name := "sync-loop-" + map[bool]string{true: "native", false: "shadow"}[native]
+		xrun.Explore(r, name, xrun.Opts{Kind: "loop", Bound: ev.Pick(r, 1, 2), Budget: 30, Recycle: 4,
+			Param: loopworld.Cfg{Native: native, Remote2: true, Straddle: true, MaxVisits: 1, AppOps: []string{"put-b", "del-a"}}})
+	}
 	r.Finish()
 }
 
